@@ -287,6 +287,24 @@ def wrapper(vk, cfg):
 # ================================================================================================
 # Material + total_lagrange / updated_lagrange with an abstract objective material
 LAG_CONFIGS = [dict(backend=b, wrap=w) for b in ("tensortrax", "jax") for w in ("total_lagrange", "updated_lagrange")]
+# options of Material.__init__: jax `jacobian=` (a user callable for the Jacobian, e.g. forward mode), tensortrax `parallel=`
+LAG_CONFIGS += [dict(backend="jax", wrap="total_lagrange", jacobian="user"), dict(backend="jax", wrap="updated_lagrange", jacobian="user"), dict(backend="tensortrax", wrap="total_lagrange", parallel=True), dict(backend="tensortrax", wrap="updated_lagrange", parallel=True)]
+
+
+class _RecordingTensortraxStub(M.TensortraxStub):
+    """the tensortrax contract stub, additionally recording the `parallel` flag each AD entry point is built with"""
+
+    def __init__(self):
+        super().__init__()
+        self.par = []
+
+    def function(self, fun, *a, **k):
+        self.par.append(("function", k.get("parallel", False)))
+        return super().function(fun, *a, **k)
+
+    def jacobian(self, fun, *a, **k):
+        self.par.append(("jacobian", k.get("parallel", False)))
+        return super().jacobian(fun, *a, **k)
 
 
 @contract("C11", "lagrange", configs=LAG_CONFIGS)
@@ -325,11 +343,27 @@ def lagrange(vk, cfg):
 
     F = sym_F(vk)
     require_det(vk, F)
-    stub = M.TensortraxStub() if backend == "tensortrax" else M.JaxStub()
+    stub = _RecordingTensortraxStub() if backend == "tensortrax" else M.JaxStub()
+    kwm, jac_calls = {}, []
+    if cfg.get("jacobian"):
+        vk.real(Mat.__init__, alias=f"felupe.constitution.{backend}._material.Material.__init__")
+
+        def user_jacobian(f_, has_aux=False, **k):
+            "the user's callable for the Jacobian (contract: the exact Jacobian of the function it is given)"
+            jac_calls.append((f_, has_aux, k))
+            return stub.jacfwd(f_, has_aux=has_aux)
+
+        kwm["jacobian"] = user_jacobian
+    if cfg.get("parallel"):
+        vk.real(Mat.__init__, alias=f"felupe.constitution.{backend}._material.Material.__init__")
+        kwm["parallel"] = True
     with M.module_globals(MATm, **({"tr": stub} if backend == "tensortrax" else {"jax": stub})):
         fun = deco(material)
         with M.rebound(fun, JHELP.vmap):
-            um = Mat(fun)
+            n_default = stub.calls.count("jacfwd") if backend == "jax" else 0
+            um = Mat(fun, **kwm)
+            if cfg.get("jacobian"):
+                vk.ensures_true("jacobian=: the callable handed in builds the elasticity (called once, with the stress function, has_aux=False); jax.jacobian is not used besides", len(jac_calls) == 1 and jac_calls[0][0] is um.fun and jac_calls[0][1] is False and not jac_calls[0][2] and stub.calls.count("jacfwd") - n_default == 1, f"{len(jac_calls)} calls of the user callable, {stub.calls.count('jacfwd') - n_default} Jacobians built", backend="exec")
             P = um.gradient([F, None])[0]
             Sh = Shat(F[:, :, 0, 0]).reshape(3, 3, 1, 1)
             vk.ensures_eq("material-is-fed-with-F", calls[-1].reshape(3, 3, 1, 1), F)
@@ -343,6 +377,8 @@ def lagrange(vk, cfg):
                 R = M.rotation(t, k, batch=2)
                 PR = um.gradient([M.mm(R, F), None])[0]
                 vk.ensures_eq(f"objectivity/P(R{k}.F)==R{k}.P(F)", PR, M.mm(R, P))
+            if cfg.get("parallel"):
+                vk.ensures_true("parallel=True: every AD entry point (tr.function for the stress, tr.jacobian for the elasticity) is built with parallel=True", len(stub.par) >= 2 and {w for w, _ in stub.par} == {"function", "jacobian"} and all(p_ is True for _, p_ in stub.par), str(stub.par[:6]), backend="exec")
             vk.canary("P(R.F)==P(F)", PR, P)
 
 
@@ -629,7 +665,8 @@ def model_other(vk, cfg):
                 Qa = np.diag([-1 if i == a else 1 for i in range(3)])
                 vk.ensures_eq(f"orthotropy/psi(Q{a}^T.C.Q{a})==psi(C)", co(f(Qa @ C @ Qa, **kw)), psi)
             vk.canary("orthotropic-energy-is-isotropic", co(f(rot(C, 2), **kw)), psi)
-        vk.note("saint_venant_kirchhoff_orthotropic (k=2; k!=2 needs eigh eigenvectors: not decided): anisotropic, objectivity / Kirchhoff symmetry / major symmetry by the wrapper contract")
+        vk.note("saint_venant_kirchhoff_orthotropic (k=2; k!=2 needs eigh eigenvectors: not decided symbolically, bounded native stand-ins below): anisotropic, objectivity / Kirchhoff symmetry / major symmetry by the wrapper contract")
+        _svk_orthotropic_k_standin(vk)
     elif name == "finite_strain_viscoelastic":
         Ci = M.sym_matrix(vk, "Ci")
         kw = model_params(vk, name, "")
@@ -680,6 +717,88 @@ def model_other(vk, cfg):
             vk.ensures_zero("virgin-state-preserved/history(I,0)==0", np.asarray(w0).ravel())
             vk.canary("eta==1-on-any-path" if path == "unloading" else "eta==0", np.asarray(eta).ravel(), ring.lift(np.ones(1)) if path == "unloading" else ring.lift(np.zeros(1)))
         vk.note("tensortrax ogden_roxburgh returns real_to_dual(eta(W), W): value eta, variation eta*dW (dependency contract); S = eta*2dW/dC")
+
+
+def _svk_orthotropic_k_standin(vk):
+    """saint_venant_kirchhoff_orthotropic(k != 2): "For any other value, the family of Seth-Hill strains is used" -- the
+    energy is the k=2 energy with E = (C^(k/2) - 1) / k (ln(C) / 2 for k = 0) in place of the Green-Lagrange strain;
+    hence (C12) the tangent at the undeformed state is the (rotated) orthotropic linear-elastic stiffness for EVERY k,
+    the reference is stress free, the stress is continuous in k at 2.  eigh eigenvectors of a non-diagonal C are not
+    reachable symbolically: BOUNDED native stand-ins (real tensortrax AD), labelled, never counted -- a failing
+    stand-in is a refuted obligation"""
+    import tensortrax as tr
+
+    rng = np.random.RandomState(11)
+    f = TT.saint_venant_kirchhoff_orthotropic
+    sets = {
+        "A": dict(E=[6.0, 7.0, 8.0], nu=[0.2, 0.25, 0.3], G=[1.0, 2.0, 3.0]),
+        "B": dict(E=[10.0, 4.0, 2.5], nu=[0.3, 0.1, 0.05], G=[0.8, 1.7, 0.6]),
+    }
+
+    def rotm():
+        q, r_ = np.linalg.qr(rng.randn(3, 3))
+        q = q * np.sign(np.diag(r_))
+        return q * np.linalg.det(q)
+
+    with symnp.native():
+        th = 0.4
+        normals = {"aligned": np.eye(3), "rotated": np.array([[np.cos(th), np.sin(th), 0.0], [-np.sin(th), np.cos(th), 0.0], [0.0, 0.0, 1.0]])}
+        for sname, eng in sets.items():
+            lm, mu = fem.constitution.lame_converter_orthotropic(eng["E"], eng["nu"], eng["G"])
+            lm, mu = [float(x) for x in lm], [float(x) for x in mu]
+            Alin = np.asarray(fem.constitution.LinearElasticOrthotropic(**eng).hessian()[0])[..., 0, 0]
+            for rname, r in normals.items():
+                R = r.T  # columns = normals of the planes of symmetry
+                Aspec = np.einsum("ia,jb,kc,ld,abcd->ijkl", R, R, R, R, Alin)
+                kw = dict(mu=mu, lmbda=lm, r1=r[0], r2=r[1], r3=r[2])
+                mk = lambda k: mt.Hyperelastic(f, **kw, **({} if k is None else {"k": k}))  # noqa: E731
+
+                def energy(Fm, k):
+                    "the real model function evaluated by tensortrax on C = F^T F"
+                    Fq = np.asarray(Fm)[..., 0, 0]
+                    return float(np.asarray(tr.function(f, wrt=0, ntrax=0)(Fq.T @ Fq, **kw, **({} if k is None else {"k": k}))).ravel()[0])
+
+                tag = f"saint_venant_kirchhoff_orthotropic[parameters {sname}, normals {rname}]"
+                Fs = [(np.eye(3) + (rng.rand(3, 3) - 0.5) / 4).reshape(3, 3, 1, 1) for _ in range(3)]
+                P2 = [np.asarray(mk(None).gradient([F, None])[0]) for F in Fs]
+                for k in (0, 1, 3, 0.5, -1.0, 2.0000001, 2.0):
+                    try:
+                        uk = mk(k)
+                        worst_e = worst_t = worst_o = 0.0
+                        for F in Fs:
+                            Cq = F[..., 0, 0].T @ F[..., 0, 0]
+                            w, N = np.linalg.eigh(Cq)
+                            Ek = (N * (np.log(w) / 2 if k == 0 else (w ** (k / 2) - 1) / k)) @ N.T
+                            # a deformation gradient whose Green-Lagrange strain is E_k: U' = sqrt(2 E_k + 1)
+                            w2, N2 = np.linalg.eigh(2 * Ek + np.eye(3))
+                            Fp = ((N2 * np.sqrt(w2)) @ N2.T).reshape(3, 3, 1, 1)
+                            Wk, W2 = energy(F, k), energy(Fp, None)
+                            worst_e = max(worst_e, abs(Wk - W2) / max(1e-12, abs(W2)))
+                            A = np.asarray(uk.hessian([F, None])[0])[..., 0, 0]
+                            P = np.asarray(uk.gradient([F, None])[0])[..., 0, 0]
+                            h = 1e-5
+                            for i in range(3):
+                                for j in range(3):
+                                    dFm = np.zeros((3, 3, 1, 1))
+                                    dFm[i, j] = h
+                                    dP = (np.asarray(uk.gradient([F + dFm, None])[0]) - np.asarray(uk.gradient([F - dFm, None])[0]))[..., 0, 0] / (2 * h)
+                                    dW = (energy(F + dFm, k) - energy(F - dFm, k)) / (2 * h)
+                                    worst_t = max(worst_t, float(np.abs(A[:, :, i, j] - dP).max()), abs(P[i, j] - dW))
+                            Qm = rotm().reshape(3, 3, 1, 1)
+                            PQ = np.asarray(uk.gradient([M.mm(Qm, F), None])[0])
+                            worst_o = max(worst_o, float(np.abs(PQ - M.mm(Qm, P.reshape(3, 3, 1, 1))).max()))
+                        P0 = float(np.abs(np.asarray(uk.gradient([EYE.copy(), None])[0])).max())
+                        dA0 = float(np.abs(np.asarray(uk.hessian([EYE.copy(), None])[0])[..., 0, 0] - Aspec).max())
+                        vk.bounded_standin(f"{tag}(k={k}): energy == k=2 energy of the Seth-Hill strain (C^(k/2) - 1)/k [ln(C)/2 for k=0] (native float, relative)", "3 random F", len(Fs), worst_e < 1e-6, f"max relative deviation {worst_e:.2e}")
+                        vk.bounded_standin(f"{tag}(k={k}): tangent at F = I == (rotated) LinearElasticOrthotropic stiffness via lame_converter_orthotropic (native float)", "F = I, tolerance 1e-5 (tensortrax eigh perturbs C by sqrt(eps))", 1, dA0 < 1e-5, f"max deviation {dA0:.2e}")
+                        vk.bounded_standin(f"{tag}(k={k}): stress-free reference (native float)", "F = I, tolerance 1e-6", 1, P0 < 1e-6, f"max |P(I)| = {P0:.2e}")
+                        vk.bounded_standin(f"{tag}(k={k}): stress == D(energy), elasticity == D(stress) (native float, central differences h=1e-5)", "3 random F x 9 directions", 9 * len(Fs), worst_t < 1e-4, f"max deviation {worst_t:.2e}")
+                        vk.bounded_standin(f"{tag}(k={k}): objectivity P(Q F) == Q P(F) (native float)", "3 random F, 3 random rotations", len(Fs), worst_o < 1e-8, f"max deviation {worst_o:.2e}")
+                        if k in (2.0000001, 2.0):
+                            dev = max(float(np.abs(np.asarray(uk.gradient([F, None])[0]) - p2).max()) for F, p2 in zip(Fs, P2))
+                            vk.bounded_standin(f"{tag}(k={k}): stress continuous in k at 2 (== stress of the default k) (native float)", "3 random F, tolerance 1e-5", len(Fs), dev < 1e-5, f"max deviation {dev:.2e}")
+                    except Exception as e:  # pragma: no cover
+                        vk.bounded_standin(f"{tag}(k={k}): native stand-in failed", "-", 0, False, f"{type(e).__name__}: {str(e)[:160]}")
 
 
 # ------------------------------------------------------------------------------------------------
